@@ -275,7 +275,7 @@ def check(run) -> None:
             continue
         clause, _, cause = verdict.partition(":")
         e = t["ev"][pos - 1] if 0 < pos <= len(t["ev"]) else None
-        cfgd = cfgs[t["tid"]]
+        cfgd = T.safe(cfgs[t["tid"]])
         run.fail(clause, {"clause": clause, "cause": cause},
                  {"tid": t["tid"], "position": pos, "graph_config": cfgd, "event": T._brief(e), "previous": T._brief(t["ev"][pos - 2]) if pos >= 2 else None},
                  f"session of real turns {t['tid']} (update={cfgd['update']} decay={cfgd['decay']}): event {pos} ({e['op'] if e else '?'}) rejected by GelTrace: {verdict}",
